@@ -582,7 +582,70 @@ func genericShapes() error {
 type unsafePtrHolder struct{ P uintptr }
 
 // genericArmAll runs every arity; returns the number of steps executed.
+
+// genericNoRelation: a map whose component list contains a relation type but that was built WITHOUT the relation
+// option must refuse a target exactly as the ID-based builder without WithRelation does — whatever ID the relation
+// type has (in particular ID 0, the zero value of ecs.ID).
+func genericNoRelation() error {
+	outcome := func(f func() int) (res string) {
+		defer func() {
+			if x := recover(); x != nil {
+				res = "panic"
+			}
+		}()
+		return fmt.Sprintf("ok %d", f())
+	}
+	for order := 0; order < 2; order++ {
+		mk := func() (*ecs.World, ecs.ID, ecs.ID) {
+			w := ecs.NewWorld(ecs.NewConfig().WithCapacityIncrement(4).WithRelationCapacityIncrement(2))
+			var rel, a0 ecs.ID
+			if order == 0 {
+				rel = ecs.ComponentID[GRel](&w) // the relation type is component 0
+				a0 = ecs.ComponentID[GA0](&w)
+			} else {
+				a0 = ecs.ComponentID[GA0](&w)
+				rel = ecs.ComponentID[GRel](&w)
+			}
+			return &w, rel, a0
+		}
+		count := func(w *ecs.World) int { return w.Stats().Entities.Used }
+		for variant := 0; variant < 3; variant++ {
+			wg, _, _ := mk()
+			wc, relC, a0C := mk()
+			tg, tc := wg.NewEntity(), wc.NewEntity()
+			m := generic.NewMap2[GRel, GA0](wg) // no relation option
+			b := ecs.NewBuilder(wc, relC, a0C)   // no WithRelation
+			var g, c string
+			switch variant {
+			case 0:
+				g = outcome(func() int { m.New(tg); return count(wg) })
+				c = outcome(func() int { b.New(tc); return count(wc) })
+			case 1:
+				g = outcome(func() int { m.NewBatch(3, tg); return count(wg) })
+				c = outcome(func() int { b.NewBatch(3, tc); return count(wc) })
+			default:
+				g = outcome(func() int { q := m.NewBatchQ(3, tg); q.Close(); return count(wg) })
+				c = outcome(func() int { q := b.NewBatchQ(3, tc); q.Close(); return count(wc) })
+			}
+			if g != c {
+				return fmt.Errorf("map without relation option, relation type registered %s, variant %d (New/NewBatch/NewBatchQ with a target): generic API %q, ID-based builder without WithRelation %q",
+					[]string{"first (ID 0)", "second"}[order], variant, g, c)
+			}
+			if count(wg) != count(wc) {
+				return fmt.Errorf("map without relation option (order %d, variant %d): %d entities in the generic world, %d in the ID-based one", order, variant, count(wg), count(wc))
+			}
+			if wg.IsLocked() != wc.IsLocked() {
+				return fmt.Errorf("map without relation option (order %d, variant %d): lock state differs after the refused call", order, variant)
+			}
+		}
+	}
+	return nil
+}
+
 func genericArmAll(seed uint64, steps int) (int, error) {
+	if err := genericNoRelation(); err != nil {
+		return 0, err
+	}
 	if err := genericFixed(); err != nil {
 		return 0, err
 	}
